@@ -424,7 +424,9 @@ def project_value(ns, v):
         f = _base_factor(ns, units)
         idx = df.index
         naive = idx.tz is None
-        hours = [int(t) // EPOCH_NS_PER_H for t in idx.asi8]
+        # keyed by the hour since the epoch; a time stamp that is not on the hour keeps its fraction (a series starting at 05:30 is
+        # not the series starting at 05:00)
+        hours = [int(t) // EPOCH_NS_PER_H if int(t) % EPOCH_NS_PER_H == 0 else int(t) / EPOCH_NS_PER_H for t in idx.asi8]
         mags = [float(x) * f for x in df["value"].values._data]
         return ("H", _dims(ns, units), naive, dict(zip(hours, mags)), len(hours))
     if isinstance(v, ns.ExplainableQuantity):
